@@ -384,7 +384,7 @@ def run(tier, seed):
                 'triples for pools <= 40 (thorough), a || unknown || b for the TLV kinds: D(a||b) must equal D(a) ++ D(b) (dict union for OPEN '
                 'capabilities); all orders of every <= %d-subset of a 13-attribute UPDATE plus rotations / reversal of the full one. '
                 'distinct_nontrivial = distinct (kind, element widths)' % (len(sizes), 5 if tier == 'thorough' else 4),
-        'samples': [{'kind': 'ipv6_prefix', 'a': '00', 'b': '00'}, {'kind': 'vpnv4', 'a': ep['vpnv4'][0].hex(), 'b': ep['vpnv4'][-1].hex()}],
+        'samples': [{'kind': k, 'a': report.pick(ep[k], seed, 1)[0].hex(), 'b': report.pick(ep[k], seed + 1, 1)[0].hex()} for k in report.pick(sorted(sizes), seed, 3)],
         'pool_sizes': sizes, 'unit_test_updates_permuted': len(cu), 'exhaustive': True, 'violation_keys': summary,
     }
     report.write_evidence(PROP, tier, seed, 'exploration', cov,
